@@ -21,12 +21,22 @@ ProgLock == {[t \in 1..3 |-> CASE t = 1 -> <<<<"lock">>, <<"lock">>, <<"unlock">
 ProgQueue == {[t \in 1..3 |-> CASE t = 1 -> <<<<"push", 11>>, <<"push", 12>>>>
                                  [] t = 2 -> <<<<"push", 21>>, <<"push", 22>>>>
                                  [] t = 3 -> <<<<"pop">>, <<"pop">>, <<"pop">>, <<"pop">>>>]}
+\* delegate waiters next to a thread waiter: 11 wakes the next waiter from inside its callback, 12 does not; woken by unwait_all
+\* and by two unwait_one calls in any interleaving with the enqueuing
+ProgDeleg == {[t \in 1..3 |-> CASE t = 1 -> <<<<"wait", 0>>>>
+                                 [] t = 2 -> <<<<"denq", 11, TRUE>>, <<"denq", 12, FALSE>>>>
+                                 [] t = 3 -> <<<<"unwait_all", 5>>, <<"unwait_one", 6>>>>],
+              [t \in 1..3 |-> CASE t = 1 -> <<<<"denq", 11, TRUE>>, <<"denq", 12, TRUE>>, <<"denq", 13, FALSE>>>>
+                                 [] t = 2 -> <<<<"wait", 0>>>>
+                                 [] t = 3 -> <<<<"unwait_all", 5>>, <<"unwait_all", 6>>>>]}
+D3 == {11, 12, 13}
+NoD == {}
 T4 == 1..4
 T3 == 1..3
 \* every unlinked waiter eventually resumes (no lost wake-up)
-NoLostWakeup == \A w \in Threads : (woken[w] # NONE) ~> (resumed[w] # -1 \/ alive[w] = FALSE)
+NoLostWakeup == \A w \in Threads \cup Delegates : (woken[w] # NONE) ~> (resumed[w] # -1 \/ alive[w] = FALSE)
 \* longest waiting first, unless prioritised: checked as an action property on u_unlink steps
-WakeOrderOK == [][\A w \in Threads : (woken'[w] # woken[w] /\ woken'[w] # NONE) => (wq # <<>> /\ w = Head(wq))]_vars
+WakeOrderOK == [][\A w \in Threads \cup Delegates : (woken'[w] # woken[w] /\ woken'[w] # NONE) => (wq # <<>> /\ w = Head(wq))]_vars
 \* per-producer order of the safe_queue
 PerProducerOrder ==
    \A i, j \in 1..Len(popped) : i < j =>
